@@ -219,6 +219,7 @@ def check_call(ctx, case, inp, fn_name, kw):
         cls = type(call.exc).__name__
         ctx.count("outcome_" + cls)
         if cls not in case["allowed"]:
+            ctx.count(f"crash[{label}/{cls}]@{inp.source.split('/')[0]}")
             ctx.violation(f"C35/{label}/{cls}/{site_of(call.exc)}", instance(),
                           f"{head} raised {cls}: {str(call.exc)[:120]} [input class {inp.source}]", subcheck="class")
             return False
@@ -283,12 +284,12 @@ def run(ctx):
     ]
     jobs = [
         lambda c: decide(c, "c35_dec", max_dev=1 if q else 3, emit_upto=1 if q else 2),
-        lambda c: decide_sim(c, "c35_sim", 120 if q else 4000),
-        lambda c: sc.generate(c, "c35_gen_any", simulate=64 if q else 2400, NS=3, NI=2 if q else 3, L=2 if q else 3,
+        lambda c: decide_sim(c, "c35_sim", 120 if q else 8000),
+        lambda c: sc.generate(c, "c35_gen_any", simulate=64 if q else 4000, NS=3, NI=2 if q else 3, L=2 if q else 3,
                               max_muts=3, biased=(False,)),
-        lambda c: sc.generate(c, "c35_gen_cu", simulate=64 if q else 1600, NS=3, NI=2, L=2 if q else 3, max_muts=3,
+        lambda c: sc.generate(c, "c35_gen_cu", simulate=64 if q else 3200, NS=3, NI=2, L=2 if q else 3, max_muts=3,
                               biased=(False,), tree_filter="completeunary"),
-        lambda c: sc.generate(c, "c35_gen_small", simulate=48 if q else 800, NS=2, NI=2, L=2, max_muts=2,
+        lambda c: sc.generate(c, "c35_gen_small", simulate=48 if q else 1600, NS=2, NI=2, L=2, max_muts=2,
                               biased=(False,), tree_filter="nodangling"),
     ]
 
@@ -303,7 +304,7 @@ def run(ctx):
     seed = ctx.seed % 100000
     gen = tsgen_inputs(ctx, res[2] + res[3] + res[4])
     corpus = corpus_inputs(seed, q)
-    sparse = sparse_inputs(seed, 12 if q else 80)
+    sparse = sparse_inputs(seed, 12 if q else 200)
     nomut = [strip_mutations(i) for i in corpus[:2 if q else 6]]
     pool = gen + corpus + sparse + nomut
     by_muts = {"some": [i for i in pool if i.muts == "some"], "none": [i for i in pool if i.muts == "none"]}
@@ -323,7 +324,7 @@ def run(ctx):
         ctx.traces += 1
         ctx.nontriv((tuple(case["pick"]), inp.name))
 
-    k_dev = 1 if q else 6
+    k_dev = 1 if q else 8
     for case in cases:
         c = case["cls"]
         cand = by_muts[c["muts"]]
